@@ -464,3 +464,55 @@ Proof.
   repeat split; try reflexivity; [exact Eb'|apply put_get_plain; assumption|].
   apply ren_noeol_id; [exact Wn|]. unfold off_ok, slen. rewrite app_length. unfold nb. rewrite !app_length. cbn [length]. lia.
 Qed.
+
+(* ---------- o / O with plain text ---------- *)
+Lemma nextlines_row rows n : forall r t, fst (nextlines rows n (r, t)) = r + Z.of_nat n.
+Proof.
+  induction n as [|n IH]; intros r t; cbn [nextlines]; [cbn; lia|].
+  destruct (r =? t + rows - 1); rewrite IH; lia.
+Qed.
+Lemma refines_open_plain rows e (below : bool) typed e1 l0 :
+  let b := s_buf e in let s := s_vs e in
+  buf_wf b -> cursor_ok b (v_row s) (v_off s) -> getl b (v_row s) = Some l0 ->
+  forallb plain_key typed = true -> existsb (fun c => negb (is_blankc c)) typed = true ->
+  exec1 rows (CIns (if below then Io else IO) typed) e = Some e1 ->
+  let r' := if below then v_row s + 1 else v_row s in
+  let ind := fst (span_blank l0) in
+  s_buf e1 = firstn (Z.to_nat r') b ++ [ind ++ typed ++ [nlc]] ++ skipn (Z.to_nat r') b /\
+  s_regs e1 = s_regs e /\ v_row (s_vs e1) = r' /\ v_off (s_vs e1) = slen ind + slen typed - 1.
+Proof.
+  intros b s HW Hc El Hp Hnb X r' ind.
+  assert (Hr : 0 <= v_row s < blen b) by (apply getl_some in El; lia).
+  assert (Hlt : (1 <= length typed)%nat) by (destruct typed; [discriminate|cbn; lia]).
+  pose proof (plain_nonl typed Hp) as Ht.
+  cbn [exec1] in X. unfold exec_insert in X. fold b s in X. rewrite El in X.
+  assert (EI : is_oO (if below then Io else IO) = true) by (destruct below; reflexivity).
+  rewrite EI in X. cbn [negb] in X. unfold vi_indents in X. cbn [optl] in X. fold ind in X.
+  rewrite vi_input_plain in X; try assumption; [|apply span_blank_nonl|exists []; split; [reflexivity|constructor]].
+  destruct (Z.eqb_spec (blen b) 0); [lia|]. cbn [andb] in X.
+  set (rt := match (if below then Io else IO) with Io => nextlines rows 1 (v_row s, v_top s) | _ => (v_row s, v_top s) end) in X.
+  assert (Ert : fst rt = r') by (unfold rt, r'; destruct below; [rewrite nextlines_row; lia|reflexivity]).
+  cbn [nextlines] in X. destruct rt as [xrow top']. cbn [fst] in Ert. subst xrow.
+  replace (r' - 1 + 1) with r' in X by lia. rewrite Z.add_0_r in X.
+  set (nb := ind ++ typed).
+  assert (ENB : ind ++ typed ++ [nlc] = nb ++ [nlc]) by (unfold nb; rewrite <- app_assoc; reflexivity).
+  rewrite ENB in *.
+  assert (Wn : line_wf (nb ++ [nlc])).
+  { apply body_wf. unfold nb. apply Forall_app. split; [apply span_blank_nonl|exact Ht]. }
+  assert (Hr' : 0 <= r' <= blen b) by (unfold r'; destruct below; lia).
+  assert (EB : lbuf_edit b (Some (nb ++ [nlc])) r' r' = firstn (Z.to_nat r') b ++ [nb ++ [nlc]] ++ skipn (Z.to_nat r') b).
+  { unfold lbuf_edit. rewrite !Z.min_l by lia. rewrite Z.sub_diag, (split_text_line _ Wn). unfold set_row. rewrite Z.add_0_r. reflexivity. }
+  rewrite EB in X.
+  match type of X with context [finish rows ?bb _ _ _] => remember bb as b' eqn:Eb' end.
+  assert (Hlen : blen b' = blen b + 1).
+  { rewrite Eb'. unfold blen in *. rewrite !app_length, firstn_length, skipn_length. cbn [length]. lia. }
+  assert (G : getl b' r' = Some (nb ++ [nlc])).
+  { rewrite Eb'. unfold getl. destruct (Z.ltb_spec r' 0); [lia|]. unfold blen in *.
+    rewrite nth_error_app2 by (rewrite firstn_length; lia). rewrite firstn_length, Nat.min_l by lia. rewrite Nat.sub_diag. reflexivity. }
+  inversion X; subst e1. clear X. set (st := vs_top _ _).
+  assert (Hrow : 0 <= v_row st < blen b') by (unfold st; cbn [vs_top vs_pos v_row]; lia).
+  rewrite finish_buf, finish_regs, finish_row, finish_off by exact Hrow. unfold st. cbn [vs_top vs_pos v_row v_off]. rewrite G.
+  replace (Z.max 0 (slen ind + slen typed - 1)) with (slen ind + slen typed - 1) by (unfold slen; lia).
+  repeat split; try reflexivity; try (exact Eb').
+  all: apply ren_noeol_id; [exact Wn|]; unfold off_ok, slen; rewrite app_length; unfold nb; rewrite !app_length; cbn [length]; lia.
+Qed.
